@@ -108,7 +108,7 @@ func stuckLimit() time.Duration {
 	if thorough() {
 		return 1500 * time.Second
 	}
-	return 240 * time.Second
+	return 400 * time.Second
 }
 
 func startStuckWatchdog(marker string) {
